@@ -1,7 +1,45 @@
+import os
+import re
+
+
+def _prune(hdir, tree, tier):
+    """Keep the per-run build small (every harness costs ~5 s of codegen; the group serves three
+    properties): compile only the harness modules of the property being checked — its id is part
+    of the scratch path, `emitverif-<ID>-*` — and, in the quick tier, only the quick harnesses.
+    Nothing is pruned when the id cannot be read from the path (tools/devbuild)."""
+    m = re.search(r"emitverif-(C\d\d)-", hdir)
+    src = os.path.join(hdir, "src")
+    if m:
+        pid = m.group(1).lower()
+        lib = os.path.join(src, "lib.rs")
+        out = []
+        for line in open(lib).read().splitlines():
+            mm = re.match(r"^pub mod ((?:c\d\d)+)_(\w+);$", line)
+            if mm and pid not in re.findall(r"c\d\d", mm.group(1)):
+                if out and out[-1].strip() == "#[cfg(kani)]":
+                    out.pop()
+                line = "pub mod %s_%s {}" % (mm.group(1), mm.group(2))
+            out.append(line)
+        open(lib, "w").write("\n".join(out) + "\n")
+    if tier == "quick":
+        for f in os.listdir(src):
+            if not f.endswith(".rs"):
+                continue
+            p = os.path.join(src, f)
+            lines = open(p).read().splitlines()
+            keep = [l for l in lines if not re.match(r"^harness!\((?:captured )?(?:c\d\d)+_[tw]_", l)]
+            if len(keep) != len(lines):
+                open(p, "w").write("\n".join(keep) + "\n")
+
+
 GROUP = {
-    # emit_otlp with default-features = false (emit: std + sval + implicit_internal_rt)
+    # emit_otlp with default-features = false (no tls, no gzip); emit: std + sval + implicit_internal_rt
     "stub_sets": ["otlp"],
+    # restrict-vtable: virtual calls only target functions that are in a vtable for that trait method
+    # (without it the drop glue of `dyn` values and `fmt::write` fan out over every function of a
+    # matching signature: a one-property traces harness did not finish in 15 min, with it 46 s)
     "kani_args": ["-Z", "stubbing", "-Z", "restrict-vtable"],
-    "modules": ["util", "c14_route"],
+    "modules": ["util", "c14_route", "c12_send", "c12_chan", "c13_anyvalue"],
     "cbmc_args": [],
+    "generate": _prune,
 }
